@@ -128,7 +128,7 @@ func raceCase(r *core.Run, c kase, workers, reps int) {
 	}
 	if n := racelog.Reports() - before; n > 0 {
 		rep := racelog.Last()
-		r.Violation(fmt.Sprintf("data race: %s [%s]", racelog.Site(rep), c.Name), c, rep)
+		r.Violation(fmt.Sprintf("data race: %s [%s]", racelog.Key(rep), c.Name), c, rep)
 		return
 	}
 	r.Outcome("race:none")
